@@ -100,6 +100,7 @@ def run(ck):
         "timestamps non-decreasing, no restarts (the property's quantifier), one write_log call = one statement",
         "size clauses as in C14 (rotation at exact fill tolerated either way)",
     ]
+    rot.load_proposed(ck)
     exe = rot.build()
     calendar_rule = probe_daily_rule(exe)
     ck.extra["extracted"] = {"daily_next_point_rule": "next calendar HH:MM after the trigger" if calendar_rule else "trigger + 24h"}
@@ -133,7 +134,7 @@ def run(ck):
         {"cf": x["cf"], "clauses": x["clauses"], "history": [[h["op"], h["mode"], h["t"], h["id"], h["sz"]] for h in x["ops"]],
          "calendar": "day = 4 units, t=0 is 1 unit after midnight, daily point 2 units into the day (t = 1, 5, 9, ...)"} for x in witnesses]
     rot.reach_check(ck, res, REACH)
-    ck.exhaustive = True
+    sampled = False
     ck.extra["model_bounds"] = {"daily_depth": d, "periodic_depth": dp, "instants": "increments {0,1,2,5} units; day = 4 units, hour/minute = 2 units",
                                 "note": "daily is exhaustively verified for the repaired next-point rule (FixDaily); the rule as coded "
                                         "(trigger + 24h) is refuted by TLC and the counterexample class is confirmed on the real sink"}
@@ -155,27 +156,26 @@ def run(ck):
         cap = 6000 if quick else 110000
         if len(b) > cap:
             b = rng.sample(b, cap)
+            sampled = True
         for i, x in enumerate(b):
             for mi, mp in enumerate(maps):
                 # GMT for every history; the other mappings take turns (quick: every second history, thorough: every history)
                 if mi != 0 and (i % ((2 if quick else 1) * (len(maps) - 1))) != mi - 1:
                     continue
                 items.append(rot.from_behaviour(k, x, mp)); k += 1
+    # exhaustive = the model was checked exhaustively for the bound AND every exported history was replayed on the real sink
+    ck.exhaustive = not sampled
+    ck.extra["model_exhaustive_for_bounds"] = True
     n_tlc = len(items)
     nrand = 2500 if quick else 40000
     for _ in range(nrand):
         items.append(random_history(rng, k)); k += 1
     # ---- 3./4. real sink + TLC trace validation
-    obs, mine = rot.judge(ck, exe, items, PROPS)
-    # the model is the code as written: where the contract rejects, model and code must still agree
-    rot.drift_check(ck, items, obs)
-    for it in items:
-        ck.case(rot.key_of(it), rot.rotated_count(it, obs) > 0)
-    for it in (items[n_tlc // 3], items[n_tlc + 2]):
-        ck.sample({"config": it["cfg"], "ops": [list(o) for o in it["ops"][:14]], "final_directory": rot.final_dir(it, obs)})
+    # random histories first in the sample list: put one long random history next to the TLC ones
+    rot.process(ck, exe, items[:n_tlc], PROPS)
+    rot.process(ck, exe, items[n_tlc:], PROPS, nsamples=1)
     ck.extra["histories_from_tlc_replayed"] = n_tlc
     ck.extra["histories_random"] = nrand
-    ck.extra["executions_rejected"] = len(mine)
     ck.extra["zones"] = ["GMT"] + sorted({z for z, _ in DST}) + ["Asia/Kolkata"]
 
 
